@@ -270,6 +270,24 @@ def norm_inst(inst):
     return re.sub(r'\{closure@[^}]*\}', '{closure}', inst or '')
 
 
+def try_known(v):
+    """0 (Continue) / 1 (Break) when the operand of `?` is a literal Ok/Some or Err/None (possibly wrapped by with_span/map_err), else None."""
+    for _ in range(6):
+        if not isinstance(v, tuple) or not v:
+            return None
+        if v[0] == 'agg':
+            if v[1].endswith(('Result::Ok', 'Option::Some')):
+                return 0
+            if v[1].endswith(('Result::Err', 'Option::None')):
+                return 1
+            return None
+        if v[0] == 'call' and v[1].split('::')[-1] in ('with_span', 'map_err', 'with_file') and v[2]:
+            v = v[2][0]
+            continue
+        return None
+    return None
+
+
 class Path:
     __slots__ = ('env', 'bb', 'conds', 'events', 'visits', 'trace')
 
@@ -424,8 +442,16 @@ class Explorer:
                     elif self.transparent(callee) and a:
                         val = a[0]
                     else:
-                        site = (p.bb, t.get('line', 0)) if self.keep_site else None
+                        site = (p.bb, t.get('line', 0)) if (self.keep_site or callee == 'std::boxed::Box::new_uninit') else None
                         val = ('call', callee, a, norm_inst(f.get('inst', '')), site)
+                        if callee == 'std::boxed::box_assume_init_into_vec_unsafe' and a:
+                            # `vec![a, b, ..]` lowering: the array was stored through a pointer derived from the box
+                            for key, stored in list(env.items()):
+                                if isinstance(key, tuple) and isinstance(stored, tuple) and stored[0] == 'agg' and stored[1] == 'array':
+                                    basev = env.get(key[0])
+                                    if basev is not None and any(x == a[0] for x in walk(basev)):
+                                        val = ('agg', 'vec', stored[2])
+                                        break
                         p.events.append(('call', callee, a, t.get('line', 0), p.bb, len(p.conds)))
                         if self.on_call:
                             r = self.on_call(self, p, callee, a, t)
@@ -443,9 +469,14 @@ class Explorer:
                 elif k == 'switch':
                     d = self.operand(env, t['d'])
                     tg = dict((int(v), bb) for v, bb in t['targets'])
-                    if d[0] == 'discr' and d[1][0] == 'try' and not self.follow_break:
-                        p.bb = tg[0]
-                        continue
+                    if d[0] == 'discr' and d[1][0] == 'try':
+                        known = try_known(d[1][1])
+                        if known is not None:
+                            p.bb = tg.get(known, t['otherwise'])
+                            continue
+                        if not self.follow_break:
+                            p.bb = tg[0]
+                            continue
                     if d[0] == 'const':
                         val = 1 if d[1] == 'true' else (0 if d[1] == 'false' else None)
                         if val is None:
